@@ -1,6 +1,7 @@
 package c16
 
 import (
+	"strconv"
 	"fmt"
 	"regexp"
 	"strings"
@@ -109,7 +110,8 @@ var oracleKeys = map[string][]string{
 		"text-lost", "list-item-lost", "heading-level", "style-chain-heading-level", "direct-outline-level", "list-nesting", "grid-cell", "merged-cell", "header-leak",
 		"header-requested", "parsed-grid-shape", "parsed-grid-span", "parsed-grid-continuation"},
 	"odt": {"body-order", "span-text-order", "inline-element-lost", "link-text-lost", "nested-span-text-lost", "text-lost", "list-item-lost",
-		"heading-level", "style-chain-heading-level", "direct-outline-level", "outline-level-vs-inherited-style-level", "outline-level-vs-own-style-level", "list-nesting", "grid-cell", "merged-cell", "header-leak",
+		"heading-level", "style-chain-heading-level", "direct-outline-level", "outline-level-vs-inherited-style-level", "outline-level-vs-own-style-level",
+		"heading-without-outline-level", "paragraph-in-heading-style", "list-nesting", "grid-cell", "merged-cell", "header-leak",
 		"header-requested", "parsed-grid-shape", "parsed-grid-span", "parsed-grid-continuation"},
 }
 
@@ -117,6 +119,10 @@ var oracleKeys = map[string][]string{
 // (its level is what the style's own definition chain says, whichever other styles
 // of the family were used before it) fails under a key of its own.
 func headingKey(p *lpara) string {
+	if p.NoOwnLevel {
+		// the heading states no level itself (text:outline-level absent or no level 1..10)
+		return "heading-without-outline-level"
+	}
 	if p.StyleLevel != 0 && p.StyleOwn {
 		// the heading says its level itself; the style it names carries another default
 		// outline level (or is the built-in heading style of another level)
@@ -156,6 +162,9 @@ func (d *ldoc) outlineStyled() map[string]int {
 // plainKey: the key under which a plain paragraph presented as a heading fails, and a
 // note on the heading that shares its style.
 func plainKey(p *lpara, bi int, shared map[string]int) (string, string) {
+	if p.HStyle != "" {
+		return "paragraph-in-heading-style", "; the block is a <text:p> written in a heading style (" + p.HStyle + "): a paragraph, whatever default outline level its style or a style above it carries"
+	}
 	hb, ok := shared[p.Via]
 	if !ok || p.Via == "" {
 		return "heading-level", ""
@@ -170,6 +179,16 @@ func plainKey(p *lpara, bi int, shared map[string]int) (string, string) {
 // chainNote describes the definition chain of a family style for the failure detail.
 func (d *ldoc) chainNote(p *lpara) string {
 	var b strings.Builder
+	if p.NoOwnLevel {
+		at := "text:outline-level=" + strconv.Quote(p.RawOutline)
+		if p.RawOutline == "omit" {
+			at = "no text:outline-level"
+		}
+		fmt.Fprintf(&b, "; the heading is written <text:h> with %s (no level 1..10): it is a heading of level 1 (the format's default) or of the level of its paragraph style", at)
+		if p.Via != "outline" {
+			fmt.Fprintf(&b, " (%d)", p.Level)
+		}
+	}
 	if p.StyleLevel != 0 {
 		fmt.Fprintf(&b, "; the heading is written <text:h text:outline-level=\"%d\">, the definition chain of its paragraph style says default outline level %d", p.Level, p.StyleLevel)
 		if p.StyleOwn {
@@ -324,7 +343,7 @@ func evaluate(d *ldoc, out outputs) fails {
 		}
 		switch p.Kind {
 		case "h":
-			if e.Kind != "h" || e.Level != p.Level {
+			if e.Kind != "h" || !p.levelOK(e.Level) {
 				f.add(headingKey(p), "Document(): block %d (heading level %d via %s, style %q) is %s level %d%s", bi, p.Level, p.Via, p.Style, e.Kind, e.Level, d.chainNote(p))
 			}
 		case "p":
@@ -421,7 +440,14 @@ func evaluate(d *ldoc, out outputs) fails {
 					if lvl > 6 {
 						lvl = 6
 					}
-					if !strings.Contains(padded, "\n"+strings.Repeat("#", lvl)+" "+p.wantText()+"\n") {
+					shown := strings.Contains(padded, "\n"+strings.Repeat("#", lvl)+" "+p.wantText()+"\n")
+					if p.NoOwnLevel {
+						shown = false
+						for l := 1; l <= 10 && !shown; l++ {
+							shown = p.levelOK(l) && strings.Contains(padded, "\n"+strings.Repeat("#", min(l, 6))+" "+p.wantText()+"\n")
+						}
+					}
+					if !shown {
 						f.add(headingKey(p), "%s: block %d not rendered as a level-%d heading line (via %s, style %q)%s", o.name, bi, lvl, p.Via, p.Style, d.chainNote(p))
 					}
 				case "li":
